@@ -1,6 +1,7 @@
 use std::ops::{Add, Div, Mul, Neg, Sub};
 use std::rc::Rc;
 
+use rten_tensor::Layout;
 use smallvec::SmallVec;
 
 use crate::graph::{Constant, Graph, Node, NodeId, OperatorNode};
@@ -114,7 +115,10 @@ impl ConstantPattern {
 
     fn matches(&self, node: &Constant) -> bool {
         match node.as_view() {
-            ValueView::FloatTensor(t) => t
+            // Only rank-0 constants are matched. A single-element constant of
+            // higher rank (eg. shape `[1, 1]`) changes the broadcast shape of
+            // the result, so it is not interchangeable with a scalar.
+            ValueView::FloatTensor(t) if t.ndim() == 0 => t
                 .item()
                 .is_some_and(|x| (x - self.value).abs() <= self.tolerance),
             _ => false,
